@@ -8,6 +8,7 @@
 import WR.C12.Lemmas
 import WR.C02.Lemmas
 import WR.C02.Termination
+import WR.C02.Justify
 namespace WR.Props.C12
 open WR.C02 WR.C12
 
@@ -180,6 +181,163 @@ theorem page_counter_is_index (ops : List CounterOps) (hall : ∀ o ∈ ops, o =
   simpa using this
 
 example : runCounters [{}, { incr := some 2 }, { reset := some 7 }] 0 = [1, 3, 7] := by decide
+
+/-! ## early_end_justified: why a page ends where it ends (class-F model, every oracle)
+
+   FULL STATEMENT (the ideal reading of the property; false for the code and therefore for the model in
+   the two exempted situations below — recorded as KF12-2, KF12-3, KF12-4):
+
+     whenever a page ends before the content is exhausted, a forced break (break-before/after:
+     page/left/right/recto/verso, change of page name) is there, or the next unbreakable unit — line,
+     orphans/widows group, break-inside:avoid box, boxes glued by break-*:avoid — does not fit:
+     its bottom, with the trailing padding / border of the boxes it closes, would lie below the page's
+     content box; and no box's border box extends below the content box when an earlier break exists.
+
+   PROVED (`_partial`, with the exact exemptions):
+   * a paragraph's fragment ends only because the next line does not fit, lines are taken back only as
+     `widows` asks, it is cancelled only on a non-empty page for orphans / widows  (`line_end_justified`);
+   * the child loop stops before a child only at a forced break / change of page name or because placing
+     the child failed (`stop_before_child_justified`); placing fails only if the child is cancelled, its
+     content box overflows, or the second layout with more bottom space is cancelled
+     (`child_attempt_fails_iff`); nothing is ever cancelled on an empty page (C02 `root_never_aborts`);
+   * what "does not fit" means for the geometry of blocks.go (`geo_line_does_not_fit_iff`,
+     `geo_child_overflow_iff`);
+   * EXEMPTION 1 (`first_on_page_unchecked`, KF12-3): the first box of a page is accepted without any
+     overflow test, so its border box may extend below the page;
+   * EXEMPTION 2 (`second_layout_unchecked`, KF12-2 / KF12-4): after the second layout (more bottom space
+     for the child's padding / border) no overflow test is made; the oracle `exit` of blocks.go counts the
+     last child's bottom margin into the height, which pushes a whole breakable box to the next page
+     (KF12-2) or its border box below the page (KF12-4). -/
+
+/-- A paragraph's page fragment ends only because the oracle says the next line does not fit (after `k`
+    lines have been placed, with something already on the page), the lines taken back are exactly those
+    `widows` asks for, and the paragraph is cancelled only on a non-empty page when orphans / widows
+    cannot be met. -/
+theorem line_end_justified (O : Oracle γ) (st : St) (pie : Bool) (rest : List Nat) (j : Nat) (new : List FLine) (g : γ) :
+    let r := layLines O st pie rest j new g
+    (r.abort = false → r.stop = false → r.new = (placeN O pie rest j rest.length new g).1) ∧
+    (r.stop = true → ∃ k l rest', LineStop O st pie rest j new g k l rest' ∧
+        r.new = afterWidows st (placeN O pie rest j k new g).1 rest'.length) ∧
+    (r.abort = true → ∃ k l rest', LineStop O st pie rest j new g k l rest' ∧ pie = false ∧
+        ((placeN O pie rest j k new g).1.length < st.orph ∨
+         (placeN O pie rest j k new g).1.length < widowsNeeded st rest'.length + st.orph)) :=
+  layLines_justified O st pie rest j new g
+
+/-- The child loop stops right before a child only at a forced break / change of page name, or because
+    the attempt to place the child failed (and the break before it is not to be avoided). -/
+theorem stop_before_child_justified (O : Oracle γ) (c p : Box) (ks : Boxes) (index i0 : Nat) (sub : RS) (g g' : γ)
+    (pie : Bool) (nb nb' : NextPage) (hi : ¬ index < i0)
+    (h : layKids O (.cons c ks) index i0 sub (some p) g pie nb = .ok .nil (some (.at index .start)) g' none nb') :
+    ((between p c).isForce = true ∨ nameStop p c = true) ∨
+    ((between p c).isAvoid = false ∧
+      ∃ nbA, attempt O (fun g'' => layBox O c (if index = i0 then sub else RS.start) g'' false) g false = .abort nbA) :=
+  stop_before_kid_justified O c p ks index i0 sub g g' pie nb nb' hi h
+
+/-- Placing a child fails exactly when the child is cancelled, or — something being on the page — its
+    content box overflows, or its padding / border overflows and the second layout is cancelled. -/
+theorem child_attempt_fails_iff (O : Oracle γ) (lay : γ → BOut γ) (g : γ) (pie' : Bool) (nb : NextPage) :
+    attempt O lay g pie' = .abort nb ↔
+      lay g = .abort nb ∨
+      (∃ br, lay g = .ok br ∧ O.collThrough br.g = false ∧ pie' = false ∧ O.overC g br.g = true ∧ nb = br.nb) ∨
+      (∃ br, lay g = .ok br ∧ O.collThrough br.g = false ∧ pie' = false ∧ O.overC g br.g = false ∧
+          O.overB g br.g = true ∧ lay (O.bump g br.g) = .abort nb) :=
+  attempt_abort_iff O lay g pie' nb
+
+/-- "The line does not fit" for the geometry of blocks.go: its bottom — plus the paragraph's bottom
+    padding and border if it is the last line — lies below the page bottom minus the bottom space. -/
+theorem geo_line_does_not_fit_iff (c : PageCtx) (g : G) (isLast : Bool) :
+    (geo c).lineOver g isLast = true ↔
+      g.yIter + c.lineH + (if isLast then g.cur.bb + g.cur.pb else 0) > c.bottom - g.bs := by
+  simp [geo, geoLineOver, PageCtx.over]
+
+/-- "The child overflows": the bottom of its content box, resp. of its border box, lies below the page bottom
+    minus the bottom space. -/
+theorem geo_child_overflow_iff (c : PageCtx) (g gc : G) :
+    ((geo c).overC g gc = true ↔ gc.last.contentY + gc.last.height > c.bottom - g.bs) ∧
+    ((geo c).overB g gc = true ↔ gc.last.borderBoxY + gc.last.borderHeight > c.bottom - g.bs) := by
+  simp [geo, PageCtx.over]
+
+/-- EXEMPTION 1 (KF12-3): on an empty page the attempt is the child's layout, no overflow test is made. -/
+theorem first_on_page_unchecked (O : Oracle γ) (lay : γ → BOut γ) (g : γ) : attempt O lay g true = lay g := by
+  unfold attempt
+  cases lay g with
+  | abort nb => rfl
+  | ok br => by_cases h : O.collThrough br.g = true <;> simp [h]
+
+/-- EXEMPTION 2 (KF12-2 / KF12-4): the result of the second layout is taken as it is. -/
+theorem second_layout_unchecked (O : Oracle γ) (lay : γ → BOut γ) (g : γ) (br : BRes γ)
+    (h1 : lay g = .ok br) (hct : O.collThrough br.g = false) (hc : O.overC g br.g = false) (hb : O.overB g br.g = true) :
+    attempt O lay g false = lay (O.bump g br.g) := by
+  unfold attempt
+  rw [h1]
+  simp [hct, hc, hb]
+
+/-- witness of the deviation: an oracle under which every border box overflows — the first child of a
+    page and the result of a second layout are accepted all the same -/
+def overflowingOracle : Oracle Unit :=
+  ⟨fun _ _ _ _ g => g, fun _ _ => false, fun g _ _ => (g, 0), fun _ g => g, fun _ => false,
+   fun _ _ => false, fun _ _ => true, fun g _ => g, fun g _ => g, fun _ g => g, fun _ _ _ _ g => g⟩
+
+theorem deviation_witness :
+    (∃ br, attempt overflowingOracle (fun g => layBox overflowingOracle (.para {} [1, 2]) .start g true) () true = .ok br
+        ∧ overflowingOracle.overB () br.g = true) ∧
+    (∃ br, attempt overflowingOracle (fun g => layBox overflowingOracle (.para {} [1, 2]) .start g false) () false = .ok br
+        ∧ overflowingOracle.overB () br.g = true) :=
+  ⟨⟨_, rfl, rfl⟩, ⟨_, rfl, rfl⟩⟩
+
+/-! ## avoid_honoured_if_possible: `avoid` is best effort, with an exact search
+
+   The rule the code uses (WeasyPrint's): when a child cannot be placed and the break before it is
+   `avoid` (break-before / break-after: avoid on the meeting edges), `findEarlierPageBreak` looks — last
+   child first — for the last conforming break among the children already laid out on this page
+   (between siblings whose combined value is not `avoid`, or inside a child whose break-inside is not
+   `avoid`: recursively, and in a paragraph the cut that leaves `widows` lines after and at least `orphans`
+   before).  If it finds one the page ends there.  If not, the block is cancelled on a non-empty page (the
+   search goes on in the parent) and on an empty page the `avoid` is ignored. -/
+
+/-- The candidate every complete layout result carries is `findEarlierPageBreak` on the fragments built
+    (the unwinding formulation of the model is extensionally Go's search on the laid-out boxes). -/
+theorem earlier_break_is_findEarlier (O : Oracle γ) (b : Box) (s : RS) (g : γ) (pie : Bool) (br : BRes γ)
+    (h : layBox O b s g pie = .ok br) (hres : br.resume = none) : br.eb = br.frag.findEB :=
+  layBox_eb O b s g pie br h hres
+
+/-- the search succeeds exactly when a conforming break exists among the fragments (declarative rule) -/
+theorem findEarlier_finds_iff_conforming_break (fs : Frags) : fs.findEB.isSome = fs.hasBreak :=
+  Frags.findEB_isSome fs
+
+/-- **avoid honoured if possible.**  The child loop gives up on an `avoid` (result `need`: the break before
+    child `fail` should be avoided and is taken all the same or handed to the parent) only when no
+    conforming break exists among the children placed on this page; then the block is cancelled on a
+    non-empty page and the `avoid` is ignored on an empty page. -/
+theorem avoid_honoured_if_possible (O : Oracle γ) (st : St) (ks : Boxes) (s : RS) (g : γ) (pie : Bool)
+    (fs : Frags) (fail : Nat) (g' : γ) (nbF : NextPage) (pgc : Nat)
+    (h : layKids O ks 0 (startIdx s) (startSub s) none (O.enter st false s.isStart pie g) pie {} = .need fs fail g' nbF pgc) :
+    fs.hasBreak = false ∧
+    (pie = false → layBox O (.block st ks) s g pie = .abort { pg := pgc }) ∧
+    (pie = true → layBox O (.block st ks) s g pie = finishBlock O st g pie fs (some (.at fail .start)) g' none nbF) := by
+  have hk := layKids_eb O ks 0 (startIdx s) (startSub s) none (O.enter st false s.isStart pie g) pie {}
+  rw [h] at hk
+  refine ⟨?_, ?_, ?_⟩
+  · rw [← Frags.findEB_isSome, show fs.findEB = none from hk]; rfl
+  · intro hp; rw [layBox, h]; simp [hp]
+  · intro hp; rw [layBox, h]; simp [hp]
+
+/-- a `need` only ever starts at a break that is to be avoided, after something was placed -/
+theorem need_only_at_avoid (pb : Brk) (prev : Option Box) (index : Nat) (g : γ) (pgc : Nat) (nbF : NextPage)
+    (fs : Frags) (fl : Nat) (g' : γ) (nb' : NextPage) (pg' : Nat)
+    (h : failOut pb prev index g pgc nbF = KOut.need fs fl g' nb' pg') : pb.isAvoid = true ∧ prev.isSome = true := by
+  unfold failOut at h
+  by_cases ha : pb.isAvoid = true
+  · refine ⟨ha, ?_⟩
+    cases prev with
+    | none => simp [ha] at h
+    | some p => rfl
+  · simp only [ha, Bool.false_eq_true, if_false] at h
+    split at h <;> simp at h
+
+example : Frags.hasBreak (.cons 0 (.para {} [1, 2]) (.para {} [⟨1, some 1, 0⟩, ⟨2, none, 0⟩])
+    (.cons 1 (.para { bb := .avoid } [3]) (.para { bb := .avoid } [⟨3, none, 0⟩]) .nil)) = false := by decide
+
 
 /-! ## class F: conservation under any @page rule set -/
 
